@@ -33,6 +33,19 @@ fn gen_mut(r: &mut Rng) -> Mut {
     }
 }
 
+/// mutations aimed at the serialized payload of an accepted sample: lengths, counts, discriminators and
+/// enumerations are 4-byte aligned words, so most mutations overwrite one such word with an extreme value
+fn gen_payload_mut(r: &mut Rng) -> Mut {
+    let hostile32 = [0u32, 1, 2, 0xFFFF_FFFF, 0x8000_0000, 0x7FFF_FFFF, 256, 257, 0x0001_0000, 65537, 0x00FF_FFFF, 100_000];
+    match r.weighted(&[10, 3, 3, 2, 1]) {
+        0 => Mut::SetU32 { sub: 0, off: 4 * r.below(90) as u32, v: *r.pick(&hostile32) },
+        1 => Mut::SetU8 { off: r.below(360) as u32, v: *r.pick(&[0u8, 1, 2, 3, 0x7f, 0x80, 0xff]) },
+        2 => Mut::Flip { bit: r.below(8 * 360) as u32 },
+        3 => Mut::SetU16 { sub: 0, off: r.below(180) as u32, v: *r.pick(&[0u16, 1, 3, 4, 0xFFFF, 0x8000, 256]) },
+        _ => Mut::Truncate { at: r.below(360) as u32 },
+    }
+}
+
 fn gen_inject(r: &mut Rng, victim: u32, peer: u32, spoofing: bool) -> Op {
     let big = [0i64, 1, -1, 2, i64::MAX, i64::MIN, 1 << 32, (1 << 32) - 1, (1 << 32) + 1, 1 << 31, 255, 256, 257, 1_000_000, i32::MAX as i64, u32::MAX as i64, i64::MAX - 1, 3, 5, 10];
     let writers = [0x0000_0002i64, 0x0000_0102, 0x0001_00c2, 0x0000_03c2, 0x0000_04c2, 0x0000_02c2, 0x0002_00c2, 0x0003_00c3, 0x0003_00c4, 0x0000_0007, 0];
@@ -46,7 +59,7 @@ fn gen_inject(r: &mut Rng, victim: u32, peer: u32, spoofing: bool) -> Op {
             foreign: !spoofing,
         },
         1 => {
-            let kind = *r.pick(&["gap", "gap", "heartbeat", "acknack", "nackfrag", "datafrag", "datafrag", "data", "heartbeatfrag", "sub", "sub", "plist", "plist"]);
+            let kind = *r.pick(&["gap", "gap", "heartbeat", "acknack", "nackfrag", "datafrag", "datafrag", "data", "heartbeatfrag", "sub", "sub", "plist", "plist", "info", "info"]);
             let (a, b, c, d) = match kind {
                 "sub" => (r.below(256) as i64, r.below(256) as i64, *r.pick(&[0i64, 1, 3, 4, 8, 12, 24, 100, 3000]), r.below(256) as i64),
                 "datafrag" => (*r.pick(&big), *r.pick(&[0i64, 1, 2, 0xFFFF_FFFF, 1000]), (*r.pick(&[0i64, 1, 2, 0xFFFF]) << 16) | *r.pick(&[0i64, 1, 8, 1344, 0xFFFF]), *r.pick(&writers) | (*r.pick(&[0i64, 1, 100, 0xFFFF_FFFF, 70_000]) << 32)),
@@ -67,7 +80,7 @@ fn gen_inject(r: &mut Rng, victim: u32, peer: u32, spoofing: bool) -> Op {
             class: *r.pick(&[wire::C_SEDP, wire::C_SEDP, wire::C_SPDP, wire::C_UDATA, wire::C_UDATA]),
             nth: r.below(10_000) as u32,
             sn_off: *r.pick(&[0i64, 0, 0, 0, 1, -1, 5]),
-            muts: (0..r.usize(0, 4)).map(|_| gen_mut(r)).collect(),
+            muts: (0..r.usize(0, 4)).map(|_| gen_payload_mut(r)).collect(),
         },
     };
     Op::Inject { dst_p: victim, port, generator, delay_us: r.range(0, 500) }
